@@ -1,7 +1,7 @@
 SPECIFICATION Spec
 CONSTANTS
-  Programs <- SmallPrograms
-  QuerySeqs <- QS2
+  Programs <- FamilyKF2
+  QuerySeqs <- QSa
   Permute = TRUE
   CheckOnTableHit = TRUE
   RepairFalseResult = TRUE
